@@ -1,8 +1,701 @@
-//! C03 — not built yet.
+//! C03 — Elias-Fano sequences answer exactly under any access history (DESIGN §4 C03).
+//!
+//! Oracle: the plain `Vec<u32>` the sequence was built from, and for cursors an
+//! index into it clamped to `len` (saturating arithmetic). Histories are values
+//! `(values, Vec<Op>)` interpreted step by step against the model; the observers
+//! `current()/index()/is_exhausted()` are compared after every step.
 use crate::engine::*;
+use serde_json::{json, Value};
+use succinctly::bits::{EliasFano, EliasFanoCursor};
 
-pub const RULE: &str = "not built";
+pub const RULE: &str = "Non-decreasing Vec<u32> built by construction (classes: empty, single, all-equal, consecutive, dense-with-duplicates, sorted-random, small-deltas-with-huge-jumps, extremes 0/u32::MAX, segment mixtures, universe<=n, two clusters with a gap > 2^31; lengths biased to 255..257 and 511..513, <= 700 quick) x a history of 0..60 operations over up to 4 cursors: cursor(), cursor_from(i), advance_one, advance_by(k) (k in {0,1,2,63,64,65,len,len+1, to-last, to-end, across the 256-element sample, random, usize::MAX, usize::MAX-idx(+1)}), seek(i), clone, switch; after EVERY step the returned value and current()/index()/is_exhausted() of every live cursor are compared with an index into the plain Vec clamped to len. Static part: len, is_empty, universe (max+1, 0 when empty), get(i) for every i in 0..len+3 and huge i, predecessor(v) for v in {each element-1, element, element+1, 0, u32::MAX, random}, iteration order. Non-trivial: len >= 2 and >= 3 state-changing operations of >= 2 kinds; distinct by hash(values, ops).";
+
+// ------------------------------------------------------------------ sequences
+
+#[derive(Clone, Copy, Debug, PartialEq)]
+pub enum SeqClass {
+    Empty,
+    Single,
+    AllEqual,
+    Consecutive,
+    DenseDup,
+    SortedRandom,
+    Jumps,
+    Extremes,
+    Segments,
+    SmallUniverse,
+    TwoClusters,
+}
+
+const LEN_BOUNDS: &[usize] = &[1, 2, 64, 255, 256, 257, 511, 512, 513];
+
+fn push_clamped(v: &mut Vec<u32>, acc: &mut u64, delta: u64) {
+    *acc = (*acc).saturating_add(delta).min(u32::MAX as u64);
+    v.push(*acc as u32);
+}
+
+/// A non-decreasing sequence, by construction (running sum clamped at u32::MAX
+/// or a sorted draw). `max_len` bounds the length.
+pub fn gen_values(u: &mut Src, max_len: usize) -> (Vec<u32>, SeqClass) {
+    let class = match u.weighted(&[1, 1, 2, 3, 4, 4, 5, 3, 6, 3, 3]) {
+        0 => SeqClass::Empty,
+        1 => SeqClass::Single,
+        2 => SeqClass::AllEqual,
+        3 => SeqClass::Consecutive,
+        4 => SeqClass::DenseDup,
+        5 => SeqClass::SortedRandom,
+        6 => SeqClass::Jumps,
+        7 => SeqClass::Extremes,
+        8 => SeqClass::Segments,
+        9 => SeqClass::SmallUniverse,
+        _ => SeqClass::TwoClusters,
+    };
+    let n = u.len_biased(max_len, LEN_BOUNDS).max(2).min(max_len.max(2));
+    let edge = |u: &mut Src| -> u32 {
+        match u.below(6) {
+            0 => 0,
+            1 => 1,
+            2 => u32::MAX,
+            3 => u32::MAX - 1,
+            4 => 1 << 31,
+            _ => u.u32(),
+        }
+    };
+    let mut v: Vec<u32> = Vec::with_capacity(n);
+    match class {
+        SeqClass::Empty => {}
+        SeqClass::Single => v.push(edge(u)),
+        SeqClass::AllEqual => {
+            let x = edge(u);
+            v.resize(n, x);
+        }
+        SeqClass::Consecutive => {
+            let start: u64 = match u.below(3) {
+                0 => 0,
+                1 => (u32::MAX as u64 + 1) - n as u64, // ends exactly at u32::MAX
+                _ => u.u32() as u64,
+            };
+            for i in 0..n as u64 {
+                v.push((start + i).min(u32::MAX as u64) as u32);
+            }
+        }
+        SeqClass::DenseDup => {
+            let mut acc = if u.bool() { 0 } else { u.u32() as u64 };
+            v.push(acc as u32);
+            while v.len() < n {
+                let d = *u.pick(&[0u64, 0, 1, 1, 2, 3]);
+                push_clamped(&mut v, &mut acc, d);
+            }
+        }
+        SeqClass::SortedRandom => {
+            let n = n.min(700);
+            let shift = *u.pick(&[0u32, 0, 8, 16, 24]);
+            for _ in 0..n {
+                v.push(u.u32() >> shift);
+            }
+            v.sort_unstable();
+        }
+        SeqClass::Jumps => {
+            let mut acc = if u.bool() { 0 } else { u.u16() as u64 };
+            v.push(acc as u32);
+            let small = *u.pick(&[1usize, 3, 16, 300]);
+            while v.len() < n {
+                let d = if u.ratio(1, 12) {
+                    match u.below(3) {
+                        0 => u.u32() as u64,
+                        1 => (1u64 << 31) + u.u16() as u64,
+                        _ => 1u64 << u.range(8, 31),
+                    }
+                } else {
+                    u.below(small + 1) as u64
+                };
+                push_clamped(&mut v, &mut acc, d);
+            }
+        }
+        SeqClass::Extremes => {
+            let a = u.range(0, n);
+            let b = u.range(0, n - a);
+            let mid = u.u32();
+            for i in 0..n {
+                v.push(if i < a { 0 } else if i < a + b { mid } else { u32::MAX });
+            }
+        }
+        SeqClass::Segments => {
+            let mut acc = if u.bool() { 0 } else { u.u32() as u64 >> u.below(32) };
+            v.push(acc as u32);
+            while v.len() < n {
+                let l = u.range(1, 300).min(n - v.len());
+                let (step, jit): (u64, u64) = match u.below(6) {
+                    0 => (0, 0),
+                    1 => (1, 0),
+                    2 => (u.range(2, 1000) as u64, 0),
+                    3 => (1u64 << u.range(10, 26), 0),
+                    4 => (0, u.range(1, 9) as u64),
+                    _ => (u.range(0, 70000) as u64, u.range(0, 5) as u64),
+                };
+                let lead = if u.ratio(1, 4) { (u.u32() as u64) >> u.below(20) } else { 0 };
+                let salt = u.u32() as u64;
+                for i in 0..l as u64 {
+                    let j = if jit == 0 { 0 } else { mix64(salt ^ i) % (jit + 1) };
+                    push_clamped(&mut v, &mut acc, step + j + if i == 0 { lead } else { 0 });
+                }
+            }
+        }
+        SeqClass::SmallUniverse => {
+            // universe <= n: the low-bit width is 0
+            let top = (n / u.range(1, 4)).max(1) as u64;
+            let salt = u.u32() as u64;
+            for i in 0..n as u64 {
+                v.push((mix64(salt ^ i) % top) as u32);
+            }
+            v.sort_unstable();
+        }
+        SeqClass::TwoClusters => {
+            let a = u.range(1, n - 1);
+            let mut acc = u.below(3) as u64;
+            v.push(acc as u32);
+            while v.len() < a {
+                let d = u.below(4) as u64;
+                push_clamped(&mut v, &mut acc, d);
+            }
+            let hi_start = (u32::MAX as u64) - (u.below(5) as u64) * (n - a) as u64;
+            acc = acc.max(hi_start.saturating_sub(u.below(1000) as u64));
+            while v.len() < n {
+                v.push(acc as u32);
+                acc = acc.saturating_add(u.below(3) as u64).min(u32::MAX as u64);
+            }
+        }
+    }
+    (v, class)
+}
+
+// ------------------------------------------------------------------ histories
+
+#[derive(Clone, Copy, Debug, PartialEq)]
+pub enum Op {
+    /// replace the active cursor by `ef.cursor()`
+    Cursor,
+    /// replace the active cursor by `ef.cursor_from(i)`
+    CursorFrom(usize),
+    AdvanceOne,
+    AdvanceBy(usize),
+    Seek(usize),
+    /// clone the active cursor into a new slot and make the clone active
+    Clone,
+    /// make slot `j % live` active
+    Switch(usize),
+}
+
+impl Op {
+    fn to_json(self) -> Value {
+        match self {
+            Op::Cursor => json!(["cursor"]),
+            Op::CursorFrom(i) => json!(["cursor_from", i]),
+            Op::AdvanceOne => json!(["advance_one"]),
+            Op::AdvanceBy(k) => json!(["advance_by", k]),
+            Op::Seek(i) => json!(["seek", i]),
+            Op::Clone => json!(["clone"]),
+            Op::Switch(j) => json!(["switch", j]),
+        }
+    }
+    fn from_json(v: &Value) -> Option<Op> {
+        let name = v.get(0)?.as_str()?;
+        let arg = || v.get(1).and_then(|x| x.as_u64()).map(|x| x as usize);
+        Some(match name {
+            "cursor" => Op::Cursor,
+            "cursor_from" => Op::CursorFrom(arg()?),
+            "advance_one" => Op::AdvanceOne,
+            "advance_by" => Op::AdvanceBy(arg()?),
+            "seek" => Op::Seek(arg()?),
+            "clone" => Op::Clone,
+            "switch" => Op::Switch(arg()?),
+            _ => return None,
+        })
+    }
+    fn kind(self) -> u8 {
+        match self {
+            Op::Cursor => 0,
+            Op::CursorFrom(_) => 1,
+            Op::AdvanceOne => 2,
+            Op::AdvanceBy(_) => 3,
+            Op::Seek(_) => 4,
+            Op::Clone => 5,
+            Op::Switch(_) => 6,
+        }
+    }
+    fn mutating(self) -> bool {
+        !matches!(self, Op::Clone | Op::Switch(_))
+    }
+}
+
+const MAX_CURSORS: usize = 4;
+
+fn index_choice(u: &mut Src, len: usize) -> usize {
+    match u.below(10) {
+        0 => 0,
+        1 => len,
+        2 => len + 1,
+        3 => len.saturating_sub(1),
+        4 => *u.pick(&[255usize, 256, 257, 511, 512, 513, 64, 63, 65]),
+        5 => *u.pick(&[usize::MAX, usize::MAX - 1, 1 << 32, (1 << 32) + 1, u32::MAX as usize]),
+        _ => u.range(0, len),
+    }
+}
+
+/// The generator tracks the model index of every live cursor so that it can aim
+/// `advance_by` at the interesting targets (last element, exactly the end, the
+/// 256-element sample boundary, the usize overflow boundary).
+pub fn gen_ops(u: &mut Src, len: usize, max_ops: usize) -> Vec<Op> {
+    let n = u.range(0, max_ops);
+    let mut ops = Vec::with_capacity(n);
+    let mut idx: Vec<usize> = vec![0];
+    let mut act = 0usize;
+    for _ in 0..n {
+        let cur = idx[act];
+        let op = match u.weighted(&[1, 3, 8, 10, 5, 2, 2]) {
+            0 => Op::Cursor,
+            1 => Op::CursorFrom(index_choice(u, len)),
+            2 => Op::AdvanceOne,
+            3 => {
+                let k = match u.below(16) {
+                    0 => 0,
+                    1 => 1,
+                    2 => 2,
+                    3 => *u.pick(&[63usize, 64, 65, 66]),
+                    4 => len,
+                    5 => len + 1,
+                    6 => len.saturating_sub(cur + 1), // lands on the last element
+                    7 => len.saturating_sub(cur),     // lands exactly on the end
+                    8 => (256usize * u.range(1, 3)).saturating_sub(cur) + u.below(3), // sample boundary
+                    9 => u.range(65, len.max(66)),                                   // seek path
+                    // the overflowing shapes are an open known finding: kept rare so that
+                    // most histories run to their end (the engine counts the excluded ones)
+                    10 => match u.below(16) {
+                        0 => (usize::MAX - cur).saturating_add(1), // first overflowing k (when idx >= 1)
+                        1 => usize::MAX,
+                        2 => usize::MAX - u.below(3),
+                        _ => usize::MAX - cur - u.below(2), // idx + k == usize::MAX (or one less): no overflow
+                    },
+                    11 | 12 => u.range(2, 64),
+                    _ => u.range(0, len.saturating_sub(cur).max(3)),
+                };
+                Op::AdvanceBy(k)
+            }
+            4 => Op::Seek(index_choice(u, len)),
+            5 => Op::Clone,
+            _ => Op::Switch(u.below(MAX_CURSORS)),
+        };
+        // keep the generator's shadow indices in step (same arithmetic as the model)
+        match op {
+            Op::Cursor => idx[act] = 0,
+            Op::CursorFrom(i) | Op::Seek(i) => idx[act] = i.min(len),
+            Op::AdvanceOne => idx[act] = cur.saturating_add(1).min(len),
+            Op::AdvanceBy(k) => idx[act] = cur.saturating_add(k).min(len),
+            Op::Clone => {
+                if idx.len() < MAX_CURSORS {
+                    idx.push(cur);
+                    act = idx.len() - 1;
+                }
+            }
+            Op::Switch(j) => act = j % idx.len(),
+        }
+        ops.push(op);
+    }
+    ops
+}
+
+/// Signature of the known finding: `advance_by(k)` with `idx + k` overflowing
+/// usize panics on the addition (harness builds have overflow checks on).
+pub const SIG_ADVANCE_OVERFLOW: &str = "C03/cursor/advance_by/idx+k-overflows-usize/panic-add-overflow";
+
+pub struct HistSummary {
+    pub mutating: usize,
+    pub kinds: u8,
+    pub crossed_sample: bool,
+    pub seek_path: bool,
+    pub after_exhaustion: bool,
+    pub same_word_skip: bool,
+}
+
+fn observers(
+    values: &[u32],
+    cur: &EliasFanoCursor<'_>,
+    m: usize,
+    step: usize,
+    what: &str,
+    ctx: &dyn Fn() -> Value,
+) -> Result<(), Fail> {
+    let len = values.len();
+    let info = |obs: &str| json!({"step": step, "after": what, "observer": obs, "model_index": m, "case": ctx()});
+    check_eq!("C03/cursor/current", values.get(m).copied(), cur.current(), info("current"));
+    check_eq!("C03/cursor/index", m, cur.index(), info("index"));
+    check_eq!("C03/cursor/is_exhausted", m >= len, cur.is_exhausted(), info("is_exhausted"));
+    Ok(())
+}
+
+/// Interpret `ops` against the real cursors and the model side by side.
+pub fn run_history(values: &[u32], ef: &EliasFano, ops: &[Op], st: &mut Stats) -> Result<HistSummary, Fail> {
+    let len = values.len();
+    let ctx = || json!({"values": render_values(values), "ops": ops.iter().map(|o| o.to_json()).collect::<Vec<_>>()});
+    let mut cursors: Vec<(EliasFanoCursor<'_>, usize)> = vec![(ef.cursor(), 0)];
+    let mut act = 0usize;
+    let mut sum = HistSummary { mutating: 0, kinds: 0, crossed_sample: false, seek_path: false, after_exhaustion: false, same_word_skip: false };
+    observers(values, &cursors[0].0, 0, 0, "cursor()", &ctx)?;
+    for (step, &op) in ops.iter().enumerate() {
+        let step = step + 1;
+        let before = cursors[act].1;
+        let what = format!("{:?}", op);
+        let mut returned: Option<(Option<u32>, Option<u32>)> = None; // (expected, actual)
+        match op {
+            Op::Cursor => cursors[act] = (ef.cursor(), 0),
+            Op::CursorFrom(i) => cursors[act] = (ef.cursor_from(i), i.min(len)),
+            Op::AdvanceOne => {
+                let m = before.saturating_add(1).min(len);
+                let r = cursors[act].0.advance_one();
+                cursors[act].1 = m;
+                returned = Some((values.get(m).copied(), r));
+            }
+            Op::AdvanceBy(k) => {
+                let m = before.saturating_add(k).min(len);
+                let r = if before.checked_add(k).is_none() {
+                    // trigger predicate of the known finding: idx + k overflows usize
+                    st.class("advance_by-overflowing-k");
+                    let c = &mut cursors[act].0;
+                    match catch(|| c.advance_by(k)) {
+                        Ok(r) => r,
+                        Err((loc, msg)) => {
+                            let sig = if msg.contains("overflow") && loc.contains("elias_fano.rs") {
+                                SIG_ADVANCE_OVERFLOW.to_string()
+                            } else {
+                                format!("C03/cursor/advance_by/panic@{}", panic_sig(&loc))
+                            };
+                            return Err(Fail::new(
+                                sig,
+                                json!({"step": step, "op": what, "index_before": before, "k": k, "expected": format!("cursor exhausted: returns None, index() == len == {}", len), "actual": format!("panic: {} at {}", msg, loc), "case": ctx()}),
+                            ));
+                        }
+                    }
+                } else {
+                    cursors[act].0.advance_by(k)
+                };
+                cursors[act].1 = m;
+                returned = Some((values.get(m).copied(), r));
+                if k > 64 && m < len {
+                    sum.seek_path = true;
+                }
+                if (2..=64).contains(&k) && m < len {
+                    sum.same_word_skip = true;
+                }
+            }
+            Op::Seek(i) => {
+                let m = i.min(len);
+                let r = cursors[act].0.seek(i);
+                cursors[act].1 = m;
+                returned = Some((values.get(m).copied(), r));
+            }
+            Op::Clone => {
+                if cursors.len() < MAX_CURSORS {
+                    let c = cursors[act].clone();
+                    cursors.push(c);
+                    act = cursors.len() - 1;
+                }
+            }
+            Op::Switch(j) => act = j % cursors.len(),
+        }
+        if let Some((e, a)) = returned {
+            check_eq!(format!("C03/cursor/{}/returned", op_name(op)), e, a, {"step": step, "op": what, "index_before": before, "case": ctx()});
+            st.evals(1);
+        }
+        if op.mutating() {
+            sum.mutating += 1;
+            sum.kinds |= 1 << op.kind();
+            let after = cursors[act].1;
+            if before >= len {
+                sum.after_exhaustion = true;
+            }
+            if before / 256 != after / 256 && after < len {
+                sum.crossed_sample = true;
+            }
+        }
+        // every live cursor must be where the model says (a clone is independent)
+        for (c, m) in &cursors {
+            observers(values, c, *m, step, &what, &ctx)?;
+        }
+        st.evals(3 * cursors.len() as u64);
+    }
+    Ok(sum)
+}
+
+fn op_name(op: Op) -> &'static str {
+    match op {
+        Op::Cursor => "cursor",
+        Op::CursorFrom(_) => "cursor_from",
+        Op::AdvanceOne => "advance_one",
+        Op::AdvanceBy(_) => "advance_by",
+        Op::Seek(_) => "seek",
+        Op::Clone => "clone",
+        Op::Switch(_) => "switch",
+    }
+}
+
+fn render_values(values: &[u32]) -> Value {
+    if values.len() <= 1200 {
+        json!(values)
+    } else {
+        json!({"len": values.len(), "first": &values[..300], "last": &values[values.len() - 300..], "hash": format!("{:016x}", hash_u32s(values))})
+    }
+}
+
+fn hash_u32s(v: &[u32]) -> u64 {
+    let mut h = 0x51ed_27a1_9e37_79b9u64 ^ v.len() as u64;
+    for &x in v {
+        h = mix64(h ^ x as u64);
+    }
+    h
+}
+
+// ------------------------------------------------------------------ static queries
+
+pub fn check_static(values: &[u32], ef: &EliasFano, u: &mut Src, st: &mut Stats, full: bool) -> Result<(), Fail> {
+    let len = values.len();
+    let ctx = || json!({"values": render_values(values)});
+    check_eq!("C03/len", len, ef.len(), {"case": ctx()});
+    check_eq!("C03/is_empty", len == 0, ef.is_empty(), {"case": ctx()});
+    let universe = values.last().map(|&m| m as u64 + 1).unwrap_or(0);
+    check_eq!("C03/universe", universe, ef.universe(), {"case": ctx()});
+    st.evals(3);
+    // get
+    let mut gi: Vec<usize> = if full || len <= 2000 {
+        (0..len + 3).collect()
+    } else {
+        let mut v: Vec<usize> = (0..600).map(|_| u.range(0, len - 1)).collect();
+        let mut b = 0;
+        while b <= len + 256 {
+            v.extend([b.saturating_sub(1), b, b + 1]);
+            b += 256 * (len / 256 / 200).max(1);
+        }
+        v.extend([0, 1, len - 1, len, len + 1]);
+        let s = u.range(0, len - 1);
+        v.extend(s..(s + 300).min(len));
+        v
+    };
+    gi.extend([usize::MAX, usize::MAX - 1, 1 << 32, (1 << 32) + 1]);
+    for &i in &gi {
+        check_eq!("C03/get", values.get(i).copied(), ef.get(i), {"i": i, "case": ctx()});
+    }
+    st.evals(gi.len() as u64);
+    // predecessor: last index holding the largest element <= v
+    let mut qs: Vec<u32> = vec![0, 1, u32::MAX, u32::MAX - 1, 1 << 31];
+    let picks: Vec<usize> = if len <= 400 { (0..len).collect() } else { (0..400).map(|_| u.range(0, len - 1)).collect() };
+    for &i in &picks {
+        let x = values[i];
+        qs.extend([x.wrapping_sub(1), x, x.wrapping_add(1)]);
+    }
+    for _ in 0..16 {
+        qs.push(u.u32());
+    }
+    for &q in &qs {
+        let pp = values.partition_point(|&x| x <= q);
+        let e = if pp == 0 { None } else { Some((pp - 1, values[pp - 1])) };
+        check_eq!("C03/predecessor", e, ef.predecessor(q), {"v": q, "case": ctx()});
+    }
+    st.evals(qs.len() as u64);
+    // iteration order
+    let mut it = ef.into_iter();
+    for (i, &x) in values.iter().enumerate() {
+        let got = it.next();
+        if got != Some(x) {
+            fail!("C03/iter/order", {"i": i, "expected": x, "actual": format!("{:?}", got), "case": ctx()});
+        }
+    }
+    let tail = it.next();
+    if tail.is_some() {
+        fail!("C03/iter/extra-element", {"actual": format!("{:?}", tail), "case": ctx()});
+    }
+    st.evals(len as u64 + 1);
+    Ok(())
+}
+
+fn classify_values(values: &[u32], class: SeqClass, st: &mut Stats) {
+    let len = values.len();
+    st.size(len);
+    st.class(&format!("seq-{:?}", class));
+    st.class_if(values.windows(2).any(|w| w[0] == w[1]), "duplicates");
+    st.class_if(values.windows(2).any(|w| w[1] - w[0] > 1 << 31), "gap>2^31");
+    st.class_if(values.first() == Some(&0), "starts-at-0");
+    st.class_if(values.last() == Some(&u32::MAX), "ends-at-u32::MAX");
+    st.class_if(len > 256, "len>256");
+    st.class_if(len > 512, "len>512");
+    st.class_if((255..=257).contains(&len) || (511..=513).contains(&len), "len-at-sample-boundary");
+    st.class_if(len > 0 && values[len - 1] as u64 + 1 <= len as u64, "universe<=len(low_width=0)");
+}
+
+// ------------------------------------------------------------------ replays
+
+fn replay_input(v: &Value) -> Option<Fail> {
+    let input = &v["input"];
+    let values: Vec<u32> = input["values"].as_array()?.iter().filter_map(|x| x.as_u64()).map(|x| x as u32).collect();
+    let ops: Vec<Op> = input["ops"].as_array().map(|a| a.iter().filter_map(Op::from_json).collect()).unwrap_or_default();
+    if values.windows(2).any(|w| w[0] > w[1]) {
+        return Some(Fail::new("C03/replay/not-monotone", json!({"note": "replay input is not non-decreasing"})));
+    }
+    let mut st = Stats::default();
+    let r = catch(|| {
+        let ef = EliasFano::build(&values);
+        let mut empty = Src::new(&[]);
+        check_static(&values, &ef, &mut empty, &mut st, true)?;
+        run_history(&values, &ef, &ops, &mut st).map(|_| ())
+    });
+    match r {
+        Ok(Ok(())) => None,
+        Ok(Err(f)) => Some(f),
+        Err((loc, msg)) => Some(Fail::new(format!("panic@{}", panic_sig(&loc)), json!({"panic": msg, "location": loc}))),
+    }
+}
+
+// ------------------------------------------------------------------ run
+
+fn history_case(u: &mut Src, st: &mut Stats, max_len: usize, max_ops: usize, long: bool) -> Result<(), Fail> {
+    let (values, class) = if long { gen_long_values(u, max_len) } else { gen_values(u, max_len) };
+    let ops = gen_ops(u, values.len(), max_ops);
+    classify_values(&values, class, st);
+    st.describe(|| json!({"values": render_values(&values), "class": format!("{:?}", class), "ops": ops.iter().map(|o| o.to_json()).collect::<Vec<_>>()}));
+    let ef = EliasFano::build(&values);
+    // light static part (the dedicated sub-check does the heavy one)
+    check_eq!("C03/len", values.len(), ef.len(), {"values": render_values(&values)});
+    let sum = run_history(&values, &ef, &ops, st)?;
+    let nt = values.len() >= 2 && sum.mutating >= 3 && sum.kinds.count_ones() >= 2;
+    if nt {
+        st.class("nontrivial");
+        let mut h = hash_u32s(&values);
+        for o in &ops {
+            h = mix64(h ^ hash_str(&format!("{:?}", o)));
+        }
+        st.nontrivial(h);
+    }
+    st.class_if(sum.crossed_sample, "crosses-256-sample-boundary");
+    st.class_if(sum.seek_path, "advance_by>64(seek-path)");
+    st.class_if(sum.same_word_skip, "advance_by-2..=64(scan-path)");
+    st.class_if(sum.after_exhaustion, "op-after-exhaustion");
+    st.class_if(ops.iter().any(|o| matches!(o, Op::Clone)), "has-clone");
+    st.class_if(ops.len() >= 30, "ops>=30");
+    let cls = if sum.crossed_sample { "crosses-sample" } else if sum.after_exhaustion { "after-exhaustion" } else { "plain" };
+    st.sample(cls, || json!({"len": values.len(), "class": format!("{:?}", class), "first_values": values.iter().take(6).collect::<Vec<_>>(), "ops": ops.iter().take(12).map(|o| o.to_json()).collect::<Vec<_>>(), "n_ops": ops.len()}));
+    Ok(())
+}
+
+/// Thorough tier: sequences of up to `max_len` elements expanded from little
+/// entropy (segments whose per-element deltas are a fixed function of drawn
+/// parameters).
+fn gen_long_values(u: &mut Src, max_len: usize) -> (Vec<u32>, SeqClass) {
+    let n = u.range(1000, max_len);
+    let mut v = Vec::with_capacity(n);
+    // scale steps so the sequence tends to span a drawn fraction of the u32 range
+    let span: u64 = match u.below(4) {
+        0 => n as u64 / 2,
+        1 => n as u64 * 3,
+        2 => 1u64 << u.range(20, 32),
+        _ => u32::MAX as u64,
+    };
+    let avg = (span / n as u64).max(1);
+    let mut acc: u64 = if u.bool() { 0 } else { u.below(1000) as u64 };
+    v.push(acc as u32);
+    while v.len() < n {
+        let l = u.range(1, 5000).min(n - v.len());
+        let salt = u.u64();
+        let mode = u.below(6);
+        let jump = if u.ratio(1, 6) { (u.u32() as u64) >> u.below(16) } else { 0 };
+        for i in 0..l as u64 {
+            let r = mix64(salt ^ i);
+            let d = match mode {
+                0 => 0,
+                1 => 1,
+                2 => avg,
+                3 => r % (2 * avg + 1),
+                4 => if r % 64 == 0 { avg * 64 } else { 0 },
+                _ => r % 3,
+            };
+            push_clamped(&mut v, &mut acc, d + if i == 0 { jump } else { 0 });
+        }
+    }
+    (v, SeqClass::Segments)
+}
 
 pub fn run(cx: &mut Ctx) {
-    cx.infra("check not built");
+    cx.assume("reference model: the plain Vec<u32> and, for cursors, an index clamped to len with saturating arithmetic (harness code; std binary search for predecessor)");
+    cx.assume("EliasFano::build is only called on non-decreasing input (anything else is a documented panic)");
+    for (name, v) in cx.replays.clone() {
+        if v["kind"] == "input" {
+            let r = replay_input(&v);
+            cx.replay_outcome(&name, r);
+        }
+    }
+    let quick = cx.tier == Tier::Quick;
+    let max_len = if quick { 700 } else { 3000 };
+
+    cx.check(
+        "cursor-history",
+        RULE,
+        Budget { quick: 1_000_000, thorough: 15_000_000, max_len: 4500 },
+        |u, st| history_case(u, st, max_len, 60, false),
+    );
+    for cl in [
+        "nontrivial",
+        "crosses-256-sample-boundary",
+        "advance_by>64(seek-path)",
+        "advance_by-2..=64(scan-path)",
+        "op-after-exhaustion",
+        "duplicates",
+        "gap>2^31",
+        "len-at-sample-boundary",
+        "universe<=len(low_width=0)",
+        "has-clone",
+    ] {
+        cx.require_class("cursor-history", cl, 50);
+    }
+
+    cx.check(
+        "static-queries",
+        "same sequence generator; len, is_empty, universe, get(i) for every i in 0..len+3 and huge i, predecessor(v) for v around every (or 400 sampled) element plus 0, u32::MAX, 2^31 and random v, iteration order and termination; all against the plain Vec. Non-trivial: len >= 2.",
+        Budget { quick: 300_000, thorough: 3_000_000, max_len: 4500 },
+        |u, st| {
+            let (values, class) = gen_values(u, max_len);
+            classify_values(&values, class, st);
+            st.describe(|| json!({"values": render_values(&values), "class": format!("{:?}", class)}));
+            if values.len() >= 2 {
+                st.class("nontrivial");
+                st.nontrivial(hash_u32s(&values));
+            }
+            st.sample(&format!("{:?}", class), || json!({"len": values.len(), "first_values": values.iter().take(8).collect::<Vec<_>>(), "last": values.last()}));
+            let ef = EliasFano::build(&values);
+            check_static(&values, &ef, u, st, true)
+        },
+    );
+    for cl in ["nontrivial", "duplicates", "gap>2^31", "len>256", "len>512", "ends-at-u32::MAX", "starts-at-0", "universe<=len(low_width=0)", "seq-Empty", "seq-Single"] {
+        cx.require_class("static-queries", cl, 20);
+    }
+
+    if !quick {
+        cx.check(
+            "long-sequences",
+            "sequences of 1000..200000 elements expanded from segment parameters; sampled static queries (every 256-element sample boundary +-1, 600 random i, a dense window) and a history of up to 120 operations",
+            Budget { quick: 0, thorough: 10_000, max_len: 6000 },
+            |u, st| {
+                let (values, class) = gen_long_values(u, 200_000);
+                let ops = gen_ops(u, values.len(), 120);
+                classify_values(&values, class, st);
+                st.describe(|| json!({"values": render_values(&values), "ops": ops.iter().map(|o| o.to_json()).collect::<Vec<_>>()}));
+                st.class("nontrivial");
+                st.nontrivial(hash_u32s(&values));
+                let ef = EliasFano::build(&values);
+                check_static(&values, &ef, u, st, false)?;
+                let sum = run_history(&values, &ef, &ops, st)?;
+                st.class_if(sum.crossed_sample, "crosses-256-sample-boundary");
+                st.class_if(sum.seek_path, "advance_by>64(seek-path)");
+                st.class_if(values.len() > 100_000, "len>100000");
+                Ok(())
+            },
+        );
+        cx.require_class("long-sequences", "crosses-256-sample-boundary", 20);
+    }
 }
